@@ -7,6 +7,27 @@ use mc_checks::*;
 use mc_ref::agg::AggOp;
 use mc_ref::order::{PMethod, QMethod, QMETHODS};
 
+/// the option view `.opt()` of the float-encoded vector as a third encoding of the same series
+mod optview {
+    use mc_adapt::roll::*;
+    use mc_checks::*;
+    use tevec::prelude::*;
+    pub fn roll(f: R1, x: &[X], w: usize, mp: Option<usize>, path: Path) -> Outcome<Vec<Cell>> {
+        let v: Vec<f64> = enc_vec(x);
+        catch(|| {
+            let view = v.opt();
+            call_v1::<_, Option<f64>, Vec<f64>, f64>(f, &view, w, mp, path).cells()
+        })
+    }
+    pub fn rank(x: &[X], pct: bool, rev: bool) -> Outcome<Vec<Cell>> {
+        let v: Vec<f64> = enc_vec(x);
+        catch(|| {
+            let view = v.opt();
+            view.vrank::<Vec<f64>, f64>(pct, rev).cells()
+        })
+    }
+}
+
 fn viol(ctx: &mut Ctx, entry: String, finding: Option<&str>, size: usize, case: Value, expected: String, got: String) {
     ctx.violation(Violation { entry, finding: finding.map(|s| s.into()), size, case, expected, got });
 }
@@ -117,6 +138,17 @@ fn check_encodings_x(fam: &str, word: &[u8], x: Vec<X>, alpha: &[X], ctx: &mut C
                         None => continue,
                     };
                     ctx.eval(fam, outcome_hash(&base));
+                    if g[0].kind == OutKind::F64 && !matches!(f, R1::Fdiff(_)) {
+                        // the option view: iterated (returned form) and indexed (caller-buffer form, look-back kernels)
+                        for path in [Path::Ret, Path::Buf] {
+                            let o = optview::roll(f, &x, w, mp, path);
+                            ctx.evals += 1;
+                            ctx.transitions += 1;
+                            if !same_outcome(&base, &o) {
+                                viol(ctx, format!("encoding:{}", r1_name(f, true)), None, len * 100 + w, json!({"family": fam, "word": word, "series": json_word(&x), "w": w, "mp": mp_json(mp), "a": g[0].name, "b": format!("opt() view of Vec<f64>, {path:?}")}), show_outcome(&base), show_outcome(&o));
+                            }
+                        }
+                    }
                     for ty in &g[1..] {
                         let o = match (ty.run)(f, &x, w, mp, Path::Ret) {
                             Some(o) => o,
@@ -144,6 +176,19 @@ fn check_encodings_x(fam: &str, word: &[u8], x: Vec<X>, alpha: &[X], ctx: &mut C
             ctx.transitions += 1;
             if !same_outcome(&a, &b) {
                 viol(ctx, format!("encoding:{}", op.name()), None, len * 100, json!({"family": fam, "word": word, "series": json_word(&x), "op": op.show()}), show_outcome(&a), show_outcome(&b));
+            }
+        }
+    }
+    // whole-series ranks on the option view (indexed access)
+    for pct in [false, true] {
+        for rev in [false, true] {
+            let op = MapOp::VRank(pct, rev);
+            if let Some(a) = run_map_any::<Vec<f64>, f64>(&op, &v64) {
+                let (a, b) = (strip(a), optview::rank(&x, pct, rev));
+                ctx.transitions += 1;
+                if !same_outcome(&a, &b) {
+                    viol(ctx, format!("encoding:{}", op.name()), None, len * 100, json!({"family": fam, "word": word, "series": json_word(&x), "op": op.show(), "b": "opt() view of Vec<f64>"}), show_outcome(&a), show_outcome(&b));
+                }
             }
         }
     }
